@@ -157,6 +157,19 @@ func StepWorkflowPaths(wf *workflow.Workflow) map[string]string {
 // SubworkflowCache creates a file cache of the sub-workflows referenced
 // in this workflow using rootDir as a context.
 func SubworkflowCache(wf *workflow.Workflow, rootDir string, converter workflow.YAMLConverter, flowCaches []loadfile.FileCache) (loadfile.FileCache, error) {
+	return collectSubworkflows(wf, rootDir, converter, flowCaches, map[string]struct{}{})
+}
+
+// collectSubworkflows does the work of SubworkflowCache. The ancestors are the files that are
+// currently being resolved; meeting one of them again means the sub-workflows reference each
+// other in a cycle, which could never be loaded.
+func collectSubworkflows(
+	wf *workflow.Workflow,
+	rootDir string,
+	converter workflow.YAMLConverter,
+	flowCaches []loadfile.FileCache,
+	ancestors map[string]struct{},
+) (loadfile.FileCache, error) {
 	stepWorkflowPaths := StepWorkflowPaths(wf)
 	if len(stepWorkflowPaths) == 0 {
 		return nil, nil
@@ -170,11 +183,16 @@ func SubworkflowCache(wf *workflow.Workflow, rootDir string, converter workflow.
 		return nil, err
 	}
 	for _, ctxFile := range subworkflowCache.Files() {
+		if _, found := ancestors[ctxFile.AbsolutePath]; found {
+			return nil, fmt.Errorf("sub-workflow %s is part of a reference cycle", ctxFile.ID)
+		}
 		subwf, err := converter.FromYAML(ctxFile.Content)
 		if err != nil {
 			return nil, err
 		}
-		flowCache, err := SubworkflowCache(subwf, rootDir, converter, flowCaches)
+		ancestors[ctxFile.AbsolutePath] = struct{}{}
+		flowCache, err := collectSubworkflows(subwf, rootDir, converter, flowCaches, ancestors)
+		delete(ancestors, ctxFile.AbsolutePath)
 		if err != nil {
 			return nil, err
 		}
